@@ -24,7 +24,7 @@ func c02Exact(n uint64, t10 uint64) uint64 {
 
 // c02Threshold builds the Threshold value of t10 tenths the way a node gets it: parsed from its one-decimal text form
 // (Threshold.UnmarshalText / a config or JSON number), which is also the nearest float64 to the decimal.
-func c02Threshold(t ev.TB, t10 int) base.Threshold {
+func c02Threshold(t ev.TB, r *ev.Rec, t10 int) base.Threshold {
 	s := fmt.Sprintf("%d.%d", t10/10, t10%10)
 
 	var th base.Threshold
@@ -33,12 +33,26 @@ func c02Threshold(t ev.TB, t10 int) base.Threshold {
 	}
 
 	f, err := strconv.ParseFloat(s, 64)
-	if err != nil || f != float64(t10)/10 || th.Float64() != f {
-		t.Fatalf("threshold %q: parsed %v, literal %v, division %v disagree", s, th.Float64(), f, float64(t10)/10)
+	if err != nil || f != float64(t10)/10 {
+		t.Fatalf("threshold %q: literal %v, division %v disagree", s, f, float64(t10)/10)
+	}
+
+	// the threshold a node computes with is the one it decoded from text: a decoder that lands on another tenth changes
+	// the required count for the threshold as written ("rounding must never change the count")
+	if r == nil { // C01 only needs the values; the decoder is judged by C02
+		if th.Float64() != f || th.String() != s {
+			t.Fatalf("threshold %q decodes as %v / prints as %q", s, th.Float64(), th.String())
+		}
+
+		return th
+	}
+
+	if th.Float64() != f {
+		r.Violation(t, "decoded-threshold-differs", "threshold %q decodes as %v: the count is computed for another threshold than the one written", s, th.Float64())
 	}
 
 	if th.String() != s {
-		t.Fatalf("threshold %q prints as %q", s, th.String())
+		r.Violation(t, "decoded-threshold-differs", "threshold %q prints as %q after decoding", s, th.String())
 	}
 
 	if err := th.IsValid(nil); err != nil {
@@ -67,7 +81,7 @@ func TestC02(t *testing.T) {
 
 	ths := make([]base.Threshold, c02MaxT10+1)
 	for t10 := c02MinT10; t10 <= c02MaxT10; t10++ {
-		ths[t10] = c02Threshold(t, t10)
+		ths[t10] = c02Threshold(t, r, t10)
 	}
 
 	var evals, nontrivial, over, under int64
